@@ -95,6 +95,7 @@ type loopPolicy struct {
 var loopPolicies = []loopPolicy{
 	{"markers", "Is", "found", "every layer of the chain and every branch must be compared unless a match was found"},
 	{"markers", "IsAny", "found", "every layer, reference and branch must be compared unless a match was found"},
+	{"errutil", "As", "found", "every layer of the chain is tested itself (assignability, its own As method) and every branch is searched unless a match was found"},
 	{"telemetrykeys", "GetTelemetryKeys", "all", "the result is the union of the keys of all layers"},
 	{"issuelink", "GetAllIssueLinks", "all", "every layer contributes its link"},
 	{"contexttags", "GetContextTags", "all", "every layer contributes its tags"},
